@@ -117,10 +117,55 @@ package cipher
 //@   ensures forall j :: 0 <= j && j < c.tagSize ==> result[DL + PL + j] == TA[TO + j]
 //@   modifies dst[len(dst)..cap(dst)], heap G_spos
 
-// the authentication value (frame only here; B_0 and the associated-data length encoding are
-// asserted in the contract of auth itself)
-//@ func (*ccm).auth trusted
-//@   requires ccmok(c) && len(nonce) == c.nonceSize && tagMask != nil
-//@   ensures len(result) == c.tagSize
+// the authentication value: B_0 = flags || nonce || l(m) with flags = 64*[a present] + 8*((M-2)/2) + (L-1),
+// L = 15 - nonce size; the first associated-data block starts with l(a) encoded in 2 bytes (below
+// 2^16 - 2^8), as ff fe + 4 bytes (below 2^32) or ff ff + 8 bytes, followed by the first bytes of a,
+// zero padded; then the rest of a, then the plaintext (each zero padded by cmac), and the result is
+// xored with the encrypted counter block A_0 and truncated to the tag size
+//@ func (*ccm).auth property C04
+//@   config ns in 7,8,9,10,11,12,13
+//@   config ts in 4,6,8,10,12,14,16
+//@   requires ccmok(c) && c.nonceSize == ns && c.tagSize == ts && len(nonce) == ns && tagMask != nil && len(plaintext) < pow2(8 * (15 - ns)) && len(plaintext) < 4611686018427387904 && len(additionalData) < 4611686018427387904
+//@   let N := len(additionalData)
+//@   let HL := ite(N <= 65279, 2, ite(N < 4294967296, 6, 10))
+//@   let FL := ite(N < 16 - HL, N, 16 - HL)
+//@   assert before call Encrypt#1: arg1[0] == ite(N > 0, 64, 0) + 4 * (ts - 2) + (14 - ns) && len(arg1) == 16
+//@   assert before call Encrypt#1: forall j :: 0 <= j && j < ns ==> arg1[1 + j] == nonce[j]
+//@   assert before call Encrypt#1: forall j :: 1 + ns <= j && j < 16 ==> arg1[j] == (len(plaintext) / pow2(8 * (15 - j))) % 256
+//@   assert before call cmac#1: len(arg2) == 16 && N > 0
+//@   assert before call cmac#1: N <= 65279 ==> arg2[0] == N / 256 && arg2[1] == N % 256
+//@   assert before call cmac#1: N > 65279 && N < 4294967296 ==> arg2[0] == 255 && arg2[1] == 254 && forall j :: 0 <= j && j < 4 ==> arg2[2 + j] == (N / pow2(8 * (3 - j))) % 256
+//@   assert before call cmac#1: N >= 4294967296 ==> arg2[0] == 255 && arg2[1] == 255 && forall j :: 0 <= j && j < 8 ==> arg2[2 + j] == (N / pow2(8 * (7 - j))) % 256
+//@   assert before call cmac#1: forall j :: 0 <= j && j < FL ==> arg2[HL + j] == additionalData[j]
+//@   assert before call cmac#1: forall j :: HL + FL <= j && j < 16 ==> arg2[j] == 0
+//@   assert before call cmac#2: sameslice(arg2, additionalData[FL:])
+//@   assert before call cmac#3: sameslice(arg2, plaintext)
+//@   ensures len(result) == ts
 //@   fresh result
 //@   modifies nothing
+
+// Open: no plaintext without a matching tag - on a mismatch the output region is zeroed and nil is
+// returned; on success the output is dst || (C xor S_1..)
+//@ func (*ccm).Open property C04
+//@   requires ccmok(c) && len(dst) + len(ciphertext) < 4611686018427387904
+//@   requires !sameobj(dst, ciphertext) || offof(dst) + len(dst) == offof(ciphertext)
+//@   maypanic
+//@   let CA := arr(ciphertext)
+//@   let CO := offof(ciphertext)
+//@   let CL := len(ciphertext) - c.tagSize
+//@   let DL := len(dst)
+//@   let DA := arr(dst)
+//@   let DO := offof(dst)
+//@   bind after call NewCTR#1: ST := id(result)
+//@   bind after call ConstantTimeCompare#1: CMP := result
+//@   bind after call SliceForAppend#1: OUTA := objof(result1)
+//@   bind after call SliceForAppend#1: OUTO := offof(result1)
+//@   assert before call NewCTR#1: forall j :: 0 <= j && j < 15 ==> arg1[j] == ite(j == 0, 14 - c.nonceSize, ite(j <= c.nonceSize, nonce[j - 1], 0))
+//@   assert before call NewCTR#1: arg1[15] == 1 && len(arg1) == 16
+//@   assert before call ConstantTimeCompare#1: len(arg1) == c.tagSize && forall j :: 0 <= j && j < c.tagSize ==> arg1[j] == CA[CO + CL + j]
+//@   ensures err == nil ==> CMP == 1 && len(result0) == DL + CL
+//@   ensures err == nil ==> forall j :: 0 <= j && j < DL ==> result0[j] == DA[DO + j]
+//@   ensures err != nil ==> isnil(result0)
+//@   assert at return: defined(expectedTag) && err != nil ==> len(out) == CL && forall j :: 0 <= j && j < len(out) ==> out[j] == 0
+//@   ensures err == nil ==> forall j :: 0 <= j && j < CL ==> result0[DL + j] == bxor8(CA[CO + j], CTRKS(SKEY(ST), SCTR(ST), j))
+//@   modifies dst[len(dst)..cap(dst)], heap G_spos
